@@ -454,16 +454,26 @@ theorem matchRule_cls_congr (mt : Str → Str → Bool) {g g' : PGraph Str} (h :
 
 theorem verdict_congr (mt : Str → Str → Bool) (g g' : PGraph Str) (h : GraphEquiv g g') (r : RuleState) :
     verdictOf mt g r = verdictOf mt g' r := by
+  have hda : ∀ c, droppedAbsent g c = droppedAbsent g' c := by
+    intro c
+    apply droppedAbsent_congr
+    intro s
+    rw [Bool.eq_iff_iff]
+    unfold PGraph.hasNode
+    simp only [List.contains_iff_mem]
+    exact h.nodes s
   unfold verdictOf assertApplies
   split
   · rfl
-  · simp only
+  · simp only [hda]
+    split
+    · rfl
     split
     · rfl
     · split
       · rfl
       · generalize convertAliases r.cfg = c
-        rcases c with ⟨subjects, objects, _, _, _, _, importDir, _⟩
+        rcases c with ⟨subjects, objects, _, _, _, _, importDir, _, _⟩
         cases subjects <;> cases objects <;> cases importDir <;> simp only [Verdict.cls]
         exact matchRule_cls_congr mt h _ _ _ _ _ _ (SM.refl _) (SM.refl _)
 
@@ -536,14 +546,15 @@ theorem perm_modules_imports (mt : Str → Str → Bool) (a a' : Arch) (hwf : a.
 
 /-! ### re-application, patterns, directory entries -/
 
-theorem convertAliases_idem (c : RuleConfig) : convertAliases (convertAliases c) = convertAliases c := by
-  unfold convertAliases
-  cases h : c.anything <;> simp [h]
+theorem convertAliases_idem (c : RuleConfig) : convertAliases (convertAliases c) = convertAliases c :=
+  Pta.convertAliases_idem c
 
-theorem convertAliases_anything (c : RuleConfig) : (convertAliases c).anything = false := by
-  unfold convertAliases
-  cases h : c.anything <;> simp [h]
+theorem convertAliases_anything (c : RuleConfig) : (convertAliases c).anything = false :=
+  Pta.convertAliases_anything c
 
+/-- re-applying a rule object (to the same or to another architecture) gives what a fresh rule object gives: the only
+    in-place rewrite (`_convert_aliases`) is idempotent and keeps the subjects it removed (`dropped`), so that the
+    existence check on them is repeated on the new architecture -/
 theorem reapply (mt : Str → Str → Bool) (s : RuleState) (g g' : PGraph Str) :
     (assertApplies mt (assertApplies mt s g).1 g').2 = (assertApplies mt s g').2 := by
   by_cases hm : anythingMisused s.cfg = true
@@ -552,6 +563,8 @@ theorem reapply (mt : Str → Str → Bool) (s : RuleState) (g g' : PGraph Str) 
   · have h1 : (assertApplies mt s g).1 = { s with cfg := convertAliases s.cfg } := by
       unfold assertApplies
       simp only [hm, if_false, Bool.false_eq_true]
+      split
+      · rfl
       split
       · rfl
       · split
